@@ -217,18 +217,18 @@ theorem rres_spec (mode : Mode) (neg : Bool) (n k : Nat) :
   · simp [hm, cRounded]
   · simp [hm, cRounded, cInexact, HOr.hOr, OrOp.or, Cond.or]
 
-/-! ## `roundX` by regime -/
+/-! ## `roundXFin` by regime -/
 
 theorem roundX_round (c : Ctx) (x : Dec) (dis : Bool) (k : Nat)
     (h0 : (dis && c.prec == 0) = false)
     (h1 : (x.sign != 0 && decide (x.exp + (ndigits x.coeff : Int) - 1 < c.emin)) = false)
     (hk : (ndigits x.coeff : Int) - (c.prec : Int) = k) (hk0 : 0 < k) (hk1 : k ≤ 100000) :
-    roundX c x dis =
+    roundXFin c x dis =
       (let res := rres x.coeff k
        let yd := ryd c.mode x.neg x.coeff k
        let r := setExponent c { x with coeff := yd.1 } res [x.exp, yd.2]
        (r.1, res ||| r.2)) := by
-  unfold roundX rres ryd
+  unfold roundXFin rres ryd
   simp only [h0, h1, hk, MaxExponent, Int.toNat_natCast]
   rw [if_neg (by simp), if_neg (by simp), if_pos (by omega), if_neg (by omega)]
 
@@ -236,9 +236,9 @@ theorem roundX_round (c : Ctx) (x : Dec) (dis : Bool) (k : Nat)
 theorem roundX_sub (c : Ctx) (x : Dec) (dis : Bool)
     (h0 : (dis && c.prec == 0) = false)
     (h1 : (x.sign != 0 && decide (x.exp + (ndigits x.coeff : Int) - 1 < c.emin)) = true) :
-    roundX c x dis = ((setExponent c x cSubnormal [x.exp]).1,
+    roundXFin c x dis = ((setExponent c x cSubnormal [x.exp]).1,
                       cSubnormal ||| (setExponent c x cSubnormal [x.exp]).2) := by
-  unfold roundX
+  unfold roundXFin
   simp only [h0, h1]
   rw [if_neg (by simp), if_pos (by simp)]
 
@@ -246,8 +246,8 @@ theorem roundX_noround (c : Ctx) (x : Dec) (dis : Bool)
     (h0 : (dis && c.prec == 0) = false)
     (h1 : (x.sign != 0 && decide (x.exp + (ndigits x.coeff : Int) - 1 < c.emin)) = false)
     (h2 : (ndigits x.coeff : Int) - (c.prec : Int) ≤ 0) :
-    roundX c x dis = setExponent c x {} [x.exp, 0] := by
-  unfold roundX
+    roundXFin c x dis = setExponent c x {} [x.exp, 0] := by
+  unfold roundXFin
   simp only [h0, h1]
   rw [if_neg (by simp), if_neg (by simp), if_neg (by omega)]
 
@@ -267,7 +267,7 @@ theorem roundX_quant (c : Ctx) (v : Dec) (k p : Nat) (hp : ndigits v.coeff = p +
     (hk0 : 0 < k) (hk1 : k ≤ 100000)
     (hcarry : k < 100000 ∨ ndigits (rnd c.mode v.neg v.coeff k).1 ≤ ndigits (v.coeff / 10 ^ k))
     (hemax0 : 0 ≤ c.emax) (hemax1 : c.emax ≤ 100000) :
-    ∀ r, roundX { c with prec := p, emin := MinExponent } { v with exp := -(k : Int) } false = r →
+    ∀ r, roundXFin { c with prec := p, emin := MinExponent } { v with exp := -(k : Int) } false = r →
     (r.1.form = v.form ∧ r.1.neg = v.neg ∧ qco r.1 = (rnd c.mode v.neg v.coeff k).1 ∧
       r.2.inexact = (rnd c.mode v.neg v.coeff k).2 ∧ r.2.rounded = true ∧
       r.2.overflow = false ∧ r.2.underflow = false ∧ r.2.invalidOp = false ∧
@@ -396,8 +396,9 @@ theorem quantizeCore_spec (c : Ctx) (x : Dec) (hx : x.form = .finite) (e : Int)
             have : k = 100000 := by omega
             subst this
             exact h.2
+        rw [roundX_finite _ _ _ (show ({ x with exp := -(k : Int) } : Dec).form = .finite from hx)]
         have key := roundX_quant c x k p hp' hk0 (by omega) hc' hemax0 hemax1 _ rfl
-        generalize roundX { c with prec := p, emin := MinExponent } { x with exp := -(k : Int) } false = r at key ⊢
+        generalize roundXFin { c with prec := p, emin := MinExponent } { x with exp := -(k : Int) } false = r at key ⊢
         have hA : (if r.fst.exp > 0 then ({ r.fst with coeff := r.fst.coeff * 10 } : Dec) else r.fst).form
             = r.fst.form := by split <;> rfl
         have hB : (if r.fst.exp > 0 then ({ r.fst with coeff := r.fst.coeff * 10 } : Dec) else r.fst).neg
@@ -421,10 +422,10 @@ theorem quantizeCore_spec (c : Ctx) (x : Dec) (hx : x.form = .finite) (e : Int)
 theorem ctxRound_fit (c : Ctx) (hc : c.WF) (d : Dec) (hf : d.form = .finite)
     (hnd : ndigits d.coeff ≤ c.prec) (he1 : c.emin - (c.prec : Int) + 1 ≤ d.exp)
     (he2 : d.exp ≤ c.emax) (he3 : -100000 ≤ d.exp) :
-    if d.coeff ≠ 0 ∧ d.exp + (ndigits d.coeff : Int) - 1 > c.emax then (ctxRound c d).2.overflow = true
-    else (ctxRound c d).1 = d ∧ (ctxRound c d).2.inexact = false ∧ (ctxRound c d).2.overflow = false ∧
-      (ctxRound c d).2.underflow = false ∧ (ctxRound c d).2.invalidOp = false ∧
-      (ctxRound c d).2.sysOverflow = false ∧ (ctxRound c d).2.sysUnderflow = false := by
+    if d.coeff ≠ 0 ∧ d.exp + (ndigits d.coeff : Int) - 1 > c.emax then (ctxRoundFin c d).2.overflow = true
+    else (ctxRoundFin c d).1 = d ∧ (ctxRoundFin c d).2.inexact = false ∧ (ctxRoundFin c d).2.overflow = false ∧
+      (ctxRoundFin c d).2.underflow = false ∧ (ctxRoundFin c d).2.invalidOp = false ∧
+      (ctxRoundFin c d).2.sysOverflow = false ∧ (ctxRoundFin c d).2.sysUnderflow = false := by
   obtain ⟨c1, c2, c3, c4, c5⟩ := hc
   have hpos := ndigits_pos d.coeff
   have h0 : (true && c.prec == 0) = false := by
@@ -432,7 +433,7 @@ theorem ctxRound_fit (c : Ctx) (hc : c.WF) (d : Dec) (hf : d.form = .finite)
     simp [this]
   have hz : d.isZero = (d.coeff == 0) := by simp [Dec.isZero, hf]
   have hn0 : ndigits 0 = 1 := by decide
-  unfold ctxRound
+  unfold ctxRoundFin
   by_cases hA : d.coeff ≠ 0 ∧ d.exp + (ndigits d.coeff : Int) - 1 < c.emin
   · have h1 : (d.sign != 0 && decide (d.exp + (ndigits d.coeff : Int) - 1 < c.emin)) = true := by
       rw [sign_ne_zero, hz]; simp [hA.1, hA.2]
@@ -482,9 +483,9 @@ theorem roundX_toobig (c : Ctx) (x : Dec) (dis : Bool)
     (h0 : (dis && c.prec == 0) = false)
     (h1 : (x.sign != 0 && decide (x.exp + (ndigits x.coeff : Int) - 1 < c.emin)) = false)
     (hk : (ndigits x.coeff : Int) - (c.prec : Int) > 100000) :
-    roundX c x dis = (x, cSysOverflow ||| cOverflow) := by
+    roundXFin c x dis = (x, cSysOverflow ||| cOverflow) := by
   have hk' : (ndigits x.coeff : Int) - (c.prec : Int) > MaxExponent := hk
-  unfold roundX
+  unfold roundXFin
   simp only [h0, h1]
   rw [if_neg (by simp), if_neg (by simp), if_pos (by omega), if_pos hk']
 
@@ -501,7 +502,7 @@ theorem ryd_carry (mode : Mode) (neg : Bool) (n k : Nat)
       simp [roundAddOne, h]
     · simp [hm, hs] at h
 
-theorem quantizeCore_sys (c : Ctx) (x : Dec) (e : Int)
+theorem quantizeCore_sys (c : Ctx) (x : Dec) (hx : x.form = .finite) (e : Int)
     (hk : e - x.exp ≥ 100000) (hnd : e - x.exp ≤ (ndigits x.coeff : Int))
     (hcarry : e - x.exp = 100000 →
       ndigits (roundAt c.mode x.neg x.coeff 1 x.exp e).1 > ndigits (x.coeff / 10 ^ 100000)) :
@@ -515,6 +516,7 @@ theorem quantizeCore_sys (c : Ctx) (x : Dec) (e : Int)
   obtain ⟨p, hp'⟩ : ∃ p : Nat, ndigits x.coeff = p + k := ⟨ndigits x.coeff - k, by omega⟩
   have hpt : ((ndigits x.coeff : Int) - (k : Int)).toNat = p := by omega
   rw [hpt]
+  rw [roundX_finite _ _ _ (show ({ x with exp := -(k : Int) } : Dec).form = .finite from hx)]
   have h1 : ¬ (-(k : Int) + (ndigits x.coeff : Int) - 1 < MinExponent) := by
     simp only [MinExponent]; omega
   by_cases hbig : k > 100000
@@ -542,7 +544,7 @@ theorem goError_zero (t : Cond) : goError t {} = .none := by
 
 /-- an integer with at most `prec` digits is left alone by `Context.round` -/
 theorem ctxRound_int (c : Ctx) (hc : c.WF) (d : Dec) (he : d.exp = 0) (hnd : ndigits d.coeff ≤ c.prec) :
-    ctxRound c d = (d, {}) := by
+    ctxRoundFin c d = (d, {}) := by
   obtain ⟨c1, c2, c3, c4, c5⟩ := hc
   have hpos := ndigits_pos d.coeff
   have h0 : (true && c.prec == 0) = false := by
@@ -551,7 +553,7 @@ theorem ctxRound_int (c : Ctx) (hc : c.WF) (d : Dec) (he : d.exp = 0) (hnd : ndi
   have h1 : (d.sign != 0 && decide (d.exp + (ndigits d.coeff : Int) - 1 < c.emin)) = false := by
     have : ¬ (d.exp + (ndigits d.coeff : Int) - 1 < c.emin) := by omega
     simp [this]
-  unfold ctxRound
+  unfold ctxRoundFin
   rw [roundX_noround c d true h0 h1 (by omega)]
   have hs : sumInts [d.exp, 0] = 0 := by simp [sumInts, he]
   rw [setExponent_ok c d _ _ (checkXs_two _ _ (by omega) (by omega) (by omega) (by omega))
@@ -564,6 +566,7 @@ theorem addOp_one (c : Ctx) (hc : c.WF) (s : Bool) (a : Nat) (hfit : ndigits (a 
   unfold addOp
   simp only [shouldSetAsNaN, Dec.isNaN, decOne, upscale]
   have := ctxRound_int c hc { form := .finite, neg := s, exp := 0, coeff := a + 1 } rfl hfit
+  rw [← ctxRound_finite _ _ rfl] at this
   cases s <;> simp [finish, this, goError_zero]
 
 theorem modf_spec (x : Dec) (hx : x.form = .finite) (hexp : x.exp ≤ 0) :
